@@ -153,7 +153,9 @@ class CellBase(abc.ABC):
 
                 c2cn = c2c / np.linalg.norm(c2c)
 
-                angles = 180 * np.arccos(np.dot(self.get_side_normals(i), c2cn)) / np.pi
+                # rounding can push the cosine of (anti)parallel unit vectors just outside [-1, 1]
+                cosines = np.clip(np.dot(self.get_side_normals(i), c2cn), -1, 1)
+                angles = 180 * np.arccos(cosines) / np.pi
                 quality += np.sum(q_scale(1.25, 0.35, 0.8, angles))
                 ### cell inner angles
                 quality += np.sum(q_scale(1.5, 0.25, 0.15, abs(self.get_inner_angles(i))))
